@@ -130,7 +130,16 @@ func (u64Values) CompareKey(v search.Value, k search.Key) search.Comparison {
 }
 func (u64Values) Key(v search.Value) search.Key { return v.(uint64) }
 
-var tokenPool = []string{"", "*", "a", "a=", "a=1", "a=10", "a=2", "ab", "ab=1", "b", "b=1", "b=2", "c=x", "s2:1", "s2:12", "z"}
+// Token BYTES are a generated dimension: ASCII, non-ASCII UTF-8, the bytes 0x7e/0x7f/0x80/0xff right after a stem, a token
+// equal to a prefix, stems that are prefixes of other stems, and tokens of 256+ bytes. Tokens travel hex-encoded.
+var longStem = strings.Repeat("L", 300)
+
+var tokenPool = []string{"", "*", "a", "a=", "a=1", "a=10", "a=2", "ab", "ab=1", "b", "b=1", "b=2", "c=x", "s2:1", "s2:12", "z",
+	"a=\x7e", "a=\x7f", "a=\x80", "a=\xff", "a=\xc3\x89ire", "a=\xe6\x9d\xb1\xe4\xba\xac", "a=\xf0\x9f\x98\x80", "a\xff", "a\x7f=1",
+	"name=", "name=\xc3\x89ire", "water", "water=1", "water=\xe6\xb0\xb4", "waterway", "waterway=1", "waterway=\xff\xff",
+	"\x7f", "\x80", "\xff", "\xff\xff", longStem, longStem + "=1", longStem + "=\xc3\xa9", longStem + "\x80"}
+
+func tokWord(t string) string { return "'" + fmt.Sprintf("%x", t) }
 
 // ---- query trees ----
 
@@ -147,9 +156,9 @@ func (n *node) String() string {
 	case 'e':
 		return "( e )"
 	case 'a':
-		return "( a '" + n.tok + " )"
+		return "( a " + tokWord(n.tok) + " )"
 	case 'p':
-		return "( p '" + n.tok + " )"
+		return "( p " + tokWord(n.tok) + " )"
 	case 'r':
 		return fmt.Sprintf("( r %s %s %s )", n.w.show(n.b), n.w.show(n.e), n.children[0])
 	}
@@ -282,8 +291,13 @@ func genQuery(r *hx.Rand, w *world, c *hx.Ctx, depth int, root bool) *node {
 				p = t[:r.Intn(len(t)+1)]
 			} else {
 				p = r.Pick(tokenPool)
-				if r.Chance(1, 4) {
-					p += "~" // greater than every token with that stem
+				switch r.Intn(8) {
+				case 0:
+					p += "~" // greater than every ASCII continuation of that stem
+				case 1:
+					p += "\x7f"
+				case 2:
+					p += "\xff"
 				}
 			}
 			return &node{kind: 'p', tok: p}
@@ -467,7 +481,7 @@ func renderIndex(kind string, tokens []string, w *world) string {
 		parts = append(parts, "|")
 	}
 	for _, t := range tokens {
-		parts = append(parts, "'"+t, "(")
+		parts = append(parts, tokWord(t), "(")
 		for _, v := range w.lists[t] {
 			parts = append(parts, w.show(v))
 		}
